@@ -21,6 +21,7 @@ import (
 	"time"
 
 	abci "github.com/cometbft/cometbft/abci/types"
+	upgradetypes "github.com/cosmos/cosmos-sdk/x/upgrade/types"
 	aoltypes "github.com/medibloc/panacea-core/v2/x/aol/types"
 	pnfttypes "github.com/medibloc/panacea-core/v2/x/pnft/types"
 )
@@ -33,6 +34,7 @@ func (c *Chain) Restart() {
 }
 
 type twinBlock struct {
+	upgrade      string
 	afterRestart bool
 	nanos int64
 	txs   [][]byte
@@ -87,6 +89,9 @@ func (x *Exec) nodeAfterCommit(appHash []byte) {
 			x.Flag("C09-diverge", fmt.Sprintf("height %d tx %d: the two replicas answered DeliverTx differently: code %d/%d gas %d/%d log %q / %q",
 				x.C.Height, i, ns.blk.res[i].Code, r.Code, ns.blk.res[i].GasUsed, r.GasUsed, ns.blk.res[i].Log, r.Log))
 		}
+	}
+	if ns.blk.upgrade != "" {
+		must(t.App.UpgradeKeeper.ScheduleUpgrade(t.Ctx(), upgradetypes.Plan{Name: ns.blk.upgrade, Height: t.Height + 1}))
 	}
 	h2 := t.EndBlockCommit()
 	if !bytes.Equal(h2, appHash) {
